@@ -575,3 +575,49 @@ const (
 	TrigIMMER = 1 << 7
 	TrigTERMR = 1 << 11
 )
+
+// UsageDetail is a fully decoded usage-report IE.
+type UsageDetail struct {
+	UsageRep
+	Start, End       *time.Time
+	Vol              *ie.VolumeMeasurementFields
+	HasDur           bool
+	Unknown          []uint16 // child IE types not understood by this decoder
+	Dup              []uint16 // child IE types present more than once
+}
+
+// UsageDetails decodes every usage report of a carrier message.
+func UsageDetails(m message.Message) []UsageDetail {
+	var out []UsageDetail
+	for _, u := range UsageReports(m) {
+		d := UsageDetail{UsageRep: u}
+		seen := map[uint16]bool{}
+		for _, c := range children(u.IE) {
+			if seen[c.Type] {
+				d.Dup = append(d.Dup, c.Type)
+			}
+			seen[c.Type] = true
+			switch c.Type {
+			case ie.URRID, ie.URSEQN, ie.UsageReportTrigger:
+			case ie.StartTime:
+				if t, err := c.StartTime(); err == nil {
+					d.Start = &t
+				}
+			case ie.EndTime:
+				if t, err := c.EndTime(); err == nil {
+					d.End = &t
+				}
+			case ie.VolumeMeasurement:
+				if v, err := c.VolumeMeasurement(); err == nil {
+					d.Vol = v
+				}
+			case ie.DurationMeasurement:
+				d.HasDur = true
+			default:
+				d.Unknown = append(d.Unknown, c.Type)
+			}
+		}
+		out = append(out, d)
+	}
+	return out
+}
